@@ -707,7 +707,12 @@ impl Sim {
             _ => None,
         };
         let executing_before = self.world.running_tasks();
-        let jobs_before: Vec<u32> = if is_forget { snapshot_jobs(&self.world.state_ref).iter().map(|j| j.id).collect() } else { vec![] };
+        let (jobs_before, empty_before): (Vec<u32>, Vec<u32>) = if is_forget {
+            let js = snapshot_jobs(&self.world.state_ref);
+            (js.iter().map(|j| j.id).collect(), js.iter().filter(|j| j.tasks.is_empty()).map(|j| j.id).collect())
+        } else {
+            (vec![], vec![])
+        };
         self.world.sent.clear();
         let resp = self.client_op(op_line, msg);
         if self.panicked.is_some() {
@@ -777,7 +782,9 @@ impl Sim {
                 let still: Vec<u32> = snapshot_jobs(&self.world.state_ref).iter().map(|j| j.id).collect();
                 for j in &jobs_before {
                     if !still.contains(j) && self.completed.get(j).copied().unwrap_or(0) == 0 {
-                        self.job.lines.push(format!("mon FAIL c13.completed_once forgot-uncompleted-job job {j} was removed by a forget request although it was never reported completed"));
+                        // a closed job without tasks is never reported completed (finding F18): its removal is a consequence
+                        let sig = if empty_before.contains(j) { "forgot-empty-uncompleted-job" } else { "forgot-uncompleted-job" };
+                        self.job.lines.push(format!("mon FAIL c13.completed_once {sig} job {j} was removed by a forget request although it was never reported completed"));
                     }
                 }
             }
@@ -863,7 +870,11 @@ impl Sim {
             // array
             let (td, _) = self.gen_task_desc();
             let auto = self.rng.chance(2, 5);
-            let entries: Option<u32> = if self.rng.chance(1, 3) { Some(self.rng.range(1, 3) as u32) } else { None };
+            let mut entries: Option<u32> = if self.rng.chance(1, 3) { Some(self.rng.range(1, 3) as u32) } else { None };
+            if auto && entries.is_some() && self.rng.chance(1, 6) {
+                // `hq submit --each-line <empty file>`: auto-assigned ids for ZERO entries (a submit that adds no task)
+                entries = Some(0);
+            }
             let ranges: Vec<(u32, u32, u32)> = if auto {
                 vec![]
             } else {
